@@ -152,7 +152,7 @@ func genC07(t *rapid.T) c7Case {
 			run.Entries = append(run.Entries, perm[i].Dir)
 		}
 		run.All = rapid.Bool().Draw(t, "all")
-		run.Force = run.All && rapid.Bool().Draw(t, "force")
+		run.Force = rapid.Bool().Draw(t, "force") // with or without All: Force only disables the cache, it selects nothing
 		switch rapid.IntRange(0, 5).Draw(t, "cwd") {
 		case 0:
 			run.Cwd = "zdocs/sub" // a directory of the module that is no package
